@@ -149,7 +149,7 @@ def accepted_roots(t, rlib, deps, workdir):
 
 
 FORMS = ['add', 'sub', 'rem', 'adda', 'suba', 'rema', 'eq', 'lt', 'pcmp', 'ordmax', 'letbind', 'hypot', 'atan2', 'newf', 'getf', 'from',
-         'satadd', 'satsub', 'sum']
+         'satadd', 'satsub', 'sum', 'fmtargs', 'fmtwith', 'floorf']
 
 
 def probe_fn(name, form, a, b):
@@ -165,6 +165,9 @@ def probe_fn(name, form, a, b):
         'hypot': 'let _ = a.hypot(b);', 'atan2': 'let _ = a.atan2(b);',
         'newf': 'let _ = <%s>::new::<%s>(1.0); let _ = (a, b);' % (A, ub),
         'getf': 'let _ = a.get::<%s>(); let _ = b;' % ub,
+        'fmtargs': 'let _ = a.into_format_args(%s, uom::fmt::DisplayStyle::Abbreviation); let _ = b;' % ub,
+        'fmtwith': 'let _ = <%s>::format_args(%s, uom::fmt::DisplayStyle::Description).with(a); let _ = b;' % (A, ub),
+        'floorf': 'let _ = a.floor::<%s>(); let _ = b;' % ub,
         'from': 'let _x: %s = a.into(); let _ = b;' % B,
         'sqrt': 'let _ = a.sqrt(); let _ = b;', 'cbrt': 'let _ = a.cbrt(); let _ = b;', 'neg': 'let _ = -a; let _ = b;',
     }
